@@ -862,6 +862,10 @@ impl Eut5 {
                     sink.publish_ack_cb(move |ack, disconnected| {
                         if nb2.reenter.get() {
                             let _ = (sink2.is_ready(), sink2.credit(), sink2.is_open());
+                            // an application that closes its sink when told that the connection is gone
+                            if disconnected {
+                                sink2.close();
+                            }
                         }
                         nb2.acks.borrow_mut().push((ack_from(&ack), disconnected));
                     });
